@@ -95,6 +95,11 @@ CHECKS = {
         technique='CrossHair (z3) differential execution of the compiled output of the real anf.transform (6 configurations) vs. the input function; tracer log order = evaluation order',
         text='For every enumerated program with tracer calls in every operand position (call args, keywords, starred, subscripts, slices, binary/unary/compare operands, displays, return/raise operands, if tests, for iterables, with items) and every input within the bounds, the ANF output returns the same value with the same tracer log; rejected programs contain a documented lazy construct. Concrete side conditions: positions the configuration asks to be named hold trivial nodes; temporaries assigned once.',
         note='Program family is flat (effectful operands are direct tracer calls with leaf arguments) so the two listed evaluation-order findings cannot apply; those are re-established by witnesses. tmp_1xxx user identifiers outside.'),
+    'C19': dict(
+        level='exploration', engine='xh-path', design='DESIGN.md §2 C19',
+        technique='CrossHair (z3) symbolic execution of an instrumented copy of each program on symbolic int/float/bool inputs (real conditions); type probes compare run-time types with the sets attached by the real type_inference.resolve under a truthful resolver',
+        text='For every enumerated typed program and every path z3 can reach over x:int, y:float, b:bool, -3<=k<=3: at every executed annotated name/expression the run-time type is in the inferred set (isinstance), and at every entry of a local function the captured variables are covered by its CLOSURE_TYPES.',
+        note='Truthful resolver computes operator result types by evaluating CPython on representative values. Element types of containers/attributes are answered "unknown".'),
 }
 
 NOT_APPLICABLE = {
